@@ -142,7 +142,7 @@ func hashBlocksSSE4() {
 	Label("loop")
 	ADDQ(Imm(128), R8)
 	CMPQ(R8, Imm(128))
-	JGE(LabelRef("noinc"))
+	JCC(LabelRef("noinc"))
 	INCQ(R9)
 
 	Label("noinc")
